@@ -11,9 +11,10 @@
      is replaced by the tokens of the custom property, by its fallback when
      the property is not defined, recursively;
    * the dependency order that makes an environment acyclic. *)
-From Coq Require Import List NArith Bool.
+From Coq Require Import List NArith ZArith QArith Qround Bool.
 From Verif Require Import Css.DeclTok Css.Decl Css.VarSubst.
 Import ListNotations.
+Close Scope Q_scope.
 
 (* ---- four sides ---- *)
 
@@ -23,6 +24,32 @@ Inductive four_sides_assign {A : Type} : list A -> A -> A -> A -> A -> Prop :=
 | FS2 a b : four_sides_assign [a; b] a b a b                 (* vertical | horizontal *)
 | FS3 a b c : four_sides_assign [a; b; c] a b c b            (* top | horizontal | bottom *)
 | FS4 a b c d : four_sides_assign [a; b; c; d] a b c d.      (* top right bottom left *)
+
+(* ---- columns (css-multicol-1 3.1-3.3) ----
+   column-width = auto | <length [0,inf]>       column-count = auto | <integer [1,inf]>
+   columns      = <'column-width'> || <'column-count'>      (omitted values are `auto`)
+   `||`: one or both, IN ANY ORDER (css-values-4 2.3).  `auto` belongs to both
+   grammars; whichever longhand it is given to, the other one is auto too. *)
+
+Definition kw_is (k : str) (t : tok) : Prop := exists v, t = TIdent v /\ ascii_lower v = k.
+
+(* component value -> the typed value of the longhand *)
+Inductive css_col_width : tok -> value -> Prop :=
+| CwAuto t : kw_is kw_auto t -> css_col_width t (VKw kw_auto)
+| CwZero q i : (q == 0)%Q -> css_col_width (TNum q i) (VDim 0 u_scalar)            (* unitless zero length *)
+| CwLen q i u code : (0 <= q)%Q -> assoc (ascii_lower u) length_units = Some code ->
+                     css_col_width (TDim q i u) (VDim q code).
+
+Inductive css_col_count : tok -> value -> Prop :=
+| CcAuto t : kw_is kw_auto t -> css_col_count t (VKw kw_auto)
+| CcInt q : (1 <= q)%Q -> css_col_count (TNum q true) (VInt (Qfloor q)).
+
+(* written value of `columns` -> (column-width, column-count) *)
+Inductive columns_means : list tok -> value -> value -> Prop :=
+| CmW w vw : css_col_width w vw -> columns_means [w] vw (VKw kw_auto)
+| CmC c vc : css_col_count c vc -> columns_means [c] (VKw kw_auto) vc
+| CmWC w c vw vc : css_col_width w vw -> css_col_count c vc -> columns_means [w; c] vw vc
+| CmCW w c vw vc : css_col_width w vw -> css_col_count c vc -> columns_means [c; w] vw vc.
 
 (* ---- spelling variants ---- *)
 
